@@ -371,11 +371,9 @@ func (ex *Exec) convert(from, to types.Type, v Value) Value {
 		if isString(tu) {
 			// string(rune)
 			if !x.IsConst() {
-				if !ex.Branch(term.Ult(x, term.Const(x.W, 0x80))) {
-					ex.unsupported("symbolic non-ASCII rune to string")
-				}
-				arr := &ByteArr{size: u64(1), cells: []*term.T{term.Extract(x, 7, 0)}}
-				return Str{sym: true, b: BSlice{arr: arr, off: zero64, len: u64(1), cap: u64(1)}}
+				cells := ex.encodeRuneSym(x)
+				n := u64(uint64(len(cells)))
+				return Str{sym: true, b: BSlice{arr: &ByteArr{size: n, cells: cells}, off: zero64, len: n, cap: n}}
 			}
 			return Str{s: string(rune(x.Signed()))}
 		}
@@ -1249,4 +1247,30 @@ func (ex *Exec) decodeRuneSym(b BSlice, pos, n uint64) (*term.T, int) {
 		return runeErr, 1
 	}
 	return runeErr, 1
+}
+
+// encodeRuneSym is utf8.AppendRune for a symbolic rune: forks on the encoding length class; surrogates and values
+// outside [0, 0x10FFFF] encode U+FFFD as the runtime does.
+func (ex *Exec) encodeRuneSym(r *term.T) []*term.T {
+	if r.W < 32 {
+		r = term.ZExt(r, 32)
+	} else if r.W > 32 {
+		r = term.Extract(r, 31, 0)
+	}
+	c := func(v uint64) *term.T { return term.Const(32, v) }
+	b := func(t *term.T) *term.T { return term.Extract(t, 7, 0) }
+	cont := func(sh uint64) *term.T {
+		return b(term.Or(c(0x80), term.And(term.LShr(r, c(sh)), c(0x3F))))
+	}
+	switch {
+	case ex.Branch(term.Ult(r, c(0x80))):
+		return []*term.T{b(r)}
+	case ex.Branch(term.Ult(r, c(0x800))):
+		return []*term.T{b(term.Or(c(0xC0), term.LShr(r, c(6)))), cont(0)}
+	case ex.Branch(term.BOr(term.Ugt(r, c(0x10FFFF)), term.BAnd(term.Uge(r, c(0xD800)), term.Ule(r, c(0xDFFF))))):
+		return []*term.T{term.Const(8, 0xEF), term.Const(8, 0xBF), term.Const(8, 0xBD)}
+	case ex.Branch(term.Ult(r, c(0x10000))):
+		return []*term.T{b(term.Or(c(0xE0), term.LShr(r, c(12)))), cont(6), cont(0)}
+	}
+	return []*term.T{b(term.Or(c(0xF0), term.LShr(r, c(18)))), cont(12), cont(6), cont(0)}
 }
